@@ -6,6 +6,7 @@ import (
 	"sort"
 	"strings"
 
+	"github.com/mimiro-io/datahub/internal/jobs"
 	"github.com/mimiro-io/datahub/internal/server"
 )
 
@@ -32,6 +33,8 @@ type Session struct {
 	NoAt       bool // recovered hub: no real instants are known, only "now" queries are asked
 	relaxFull  *Obs // crash during compaction: the full feed may lie between this (before) and the expected (after)
 	jobAdded   map[int]bool
+	sink       *jobs.VerifSink
+	Answers    []stepAns // answers of steps that have one of their own, in order
 	bm         *server.BackupManager
 	bmWorldGen int
 	Variant    int // per-behaviour variant selector (flush thresholds etc.)
@@ -153,7 +156,13 @@ func (s *Session) diverge(kind string, q, exp, act any, note string) {
 
 // Run executes all steps, then checks the observation bundle.
 func (s *Session) Run(b *Behaviour) error {
-	if len(s.H.Jobs) > 0 {
+	fs := false
+	for _, a := range s.H.Acts {
+		if a == "http" || a == "jobsync" {
+			fs = true
+		}
+	}
+	if len(s.H.Jobs) > 0 || fs {
 		if err := s.preassertIDs(); err != nil {
 			return err
 		}
@@ -265,6 +274,17 @@ func (s *Session) Step(st *Step) error {
 		if err := s.foreignBackup(); err != nil {
 			return err
 		}
+	case "http", "expire", "jobstart", "jobbatch", "jobend":
+		ans, err := s.fullSyncStep(st)
+		if err != nil {
+			return err
+		}
+		s.Answers = append(s.Answers, stepAns{st, ans})
+		if ok, exp, act := compareAnswer(st, st.X, ans); !ok {
+			s.Checks++
+			s.diverge("step-answer", map[string]any{"index": len(s.Answers) - 1, "step": st.A, "id": st.ID, "start": st.Start, "end": st.End, "b": st.B}, exp, act, "")
+		}
+		return nil
 	case "job":
 		return s.runJob(st)
 	case "read":
@@ -804,6 +824,11 @@ func (s *Session) checkCatalogue(o *Obs) error {
 		s.diverge("dataset-list", nil, sortedCopy(o.Names), mine, "")
 	}
 	return nil
+}
+
+type stepAns struct {
+	St  *Step
+	Ans StepAnswer
 }
 
 // Summary of one replayed behaviour, written as one NDJSON line.
